@@ -12,9 +12,9 @@ for f in refactors/*/refactor*.diff; do
   [ -n "${1:-}" ] && [ "$1" != "$id" ] && continue
   git -C /repo checkout -q -- .
   if ! git -C /repo apply /verif/$f 2>/dev/null; then echo "| $id | NO | - |" >> refactors/MATRIX.md; echo "$id: does not apply"; continue; fi
-  for p in $props; do ( VERIF_OUT=$out ./run_check.sh $p quick > $out/$id.$p.log 2>&1; echo $? > $out/$id.$p.rc ) & done; wait
-  det=""
-  for p in $props; do rc=$(cat $out/$id.$p.rc); if [ "$rc" != "0" ]; then rules=$(grep -oE '\[C[0-9][0-9]\.[a-z-]*\]|CHECK-FAILURE' $out/$id.$p.log | sort -u | tr -d '[]' | tr '\n' ' '); det="$det $p($rules)"; [ -n "${1:-}" ] && grep -E "^  pkg|CHECK-FAILURE" $out/$id.$p.log | head -5; fi; done
+  VERIF_OUT=$out ./run_check.sh all quick > $out/$id.log 2>&1
+  det=$(tools/parse_all.py $out/$id.log); [ -n "$det" ] && det=" $det"
+  [ -n "${1:-}" ] && grep -E "^  pkg|^  -|CHECK-FAILURE" $out/$id.log | head -8
   git -C /repo checkout -q -- .
   echo "$id: ${det:-silent}"
   echo "| $id | yes | ${det:-none} |" >> refactors/MATRIX.md
